@@ -19,7 +19,7 @@ def run(chk):
     chk.rule = (f"every string of ≤ {L} symbols over {{1,2,0,-,+,:,=,{{,}},comma,backslash,n,a,space,é}} (exhaustive) + random strings of 6-14 symbols "
                 "biased to near-valid format strings + boundary integers; accept/reject and the parsed list compared with the grammar; every accepted "
                 "string of the exhaustive stream up to length 4 is also rendered on probe records (cut through main's dispatch) against the executed "
-                "specification; a sample of accepted strings and 2500 strings that look like flag clusters (leading '-', letters g j m p s z) as a command-line value of "
+                "specification; a sample of accepted strings and 2500 strings that look like flag clusters (leading '-', letters g j m p s z h V) as a command-line value of "
                 "the real binary vs the library on the same text; non-trivial = string of length ≥ 2; distinct by string")
     run_corpus(chk)
     rng = chk.rng
@@ -74,7 +74,7 @@ def run(chk):
     # flags up inside single-dash arguments; values are taken first, so a value that looks like flags is still a value)
     from common import build_tuc, run_cli
     tuc = build_tuc(release=False)
-    flaggy = ["-", "- ", "-1", "-3=", "{1}", "{-1}", ":", "j", "g", "m", "z", "p", "s", "jr", " project: ", "obj", "=jz", "{2=mg}", "x", ","]
+    flaggy = ["-", "- ", "-1", "-3=", "{1}", "{-1}", ":", "j", "g", "m", "z", "p", "s", "jr", " project: ", "obj", "=jz", "{2=mg}", "x", ",", "h", "V", "=hello", "{1=hV}"]
     vals = []
     for _ in range(2500 if chk.tier == "quick" else 25000):
         v = "".join(rng.choice(flaggy) for _ in range(rng.randint(1, 5)))
